@@ -96,14 +96,34 @@ def parse (host uri : Bytes) : URI :=
 def URI.schemeOrHTTP (u : URI) : Bytes := if u.scheme.isEmpty then strHTTP else u.scheme
 def URI.pathOrSlash (u : URI) : Bytes := if u.path.isEmpty then strSlash else u.path
 
-/-- `URI.RequestURI()` when the query comes from parsed args `qa` (empty list = use `queryString`) -/
+/-- `URI.RequestURI()` in the two situations in which the flag `parsedQueryArgs` and the argument list agree: a non-empty
+list `qa` of arguments reached through `QueryArgs()` (flag set: the arguments are written), or `qa = []` for a URI whose
+`QueryArgs()` was never called (flag clear: `queryString` is written).  The general rule, with the flag, is `requestURIp`
+(`requestURIp_true_cons`, `requestURIp_false` in `Proofs/UriOps.lean` relate the two). -/
 def URI.requestURI (u : URI) (qa : List ArgKV) : Bytes :=
   quotePath u.pathOrSlash ++
     (if !qa.isEmpty then 63 :: appendArgs qa else if !u.query.isEmpty then 63 :: u.query else [])
 
-/-- `URI.FullURI()` -/
+/-- `URI.FullURI()` (same two situations as `requestURI`) -/
 def URI.fullURI (u : URI) (qa : List ArgKV) : Bytes :=
   u.schemeOrHTTP ++ strColonSlashSlash ++ u.host ++ u.requestURI qa ++ (if u.hash.isEmpty then [] else 35 :: u.hash)
+
+/-- `URI.RequestURI()` (/repo 97b0e80), `parsed` = `u.parsedQueryArgs`, `qa` = the visible entries of `u.queryArgs`:
+```go
+if u.parsedQueryArgs {
+    if u.queryArgs.Len() > 0 { dst = append(dst, '?'); dst = u.queryArgs.AppendBytes(dst) }
+} else if len(u.queryString) > 0 { dst = append(dst, '?'); dst = append(dst, u.queryString...) }
+```
+With the flag set the arguments ARE the query (none when all were deleted; `queryString` is not looked at); with the flag
+clear `queryString` is (arguments left from an earlier query string are not looked at). -/
+def URI.requestURIp (u : URI) (parsed : Bool) (qa : List ArgKV) : Bytes :=
+  quotePath u.pathOrSlash ++
+    (if parsed then (if !qa.isEmpty then 63 :: appendArgs qa else [])
+     else if !u.query.isEmpty then 63 :: u.query else [])
+
+/-- `URI.FullURI()` with the flag -/
+def URI.fullURIp (u : URI) (parsed : Bool) (qa : List ArgKV) : Bytes :=
+  u.schemeOrHTTP ++ strColonSlashSlash ++ u.host ++ u.requestURIp parsed qa ++ (if u.hash.isEmpty then [] else 35 :: u.hash)
 
 /-! ### cookies -/
 
